@@ -120,7 +120,10 @@ def timed_dist(chk, case, m, prefix="timed"):
 
 
 def run_one(case):
-    r = enginerun.run_case(case["machine"], case["input"], case["plans"], max_data=case.get("max_data"))
+    import framecmp
+    rec = framecmp.Recorder()       # the frames of the engine connection, step by step (C03.frames_match_reference)
+    r = enginerun.run_case(case["machine"], case["input"], case["plans"], max_data=case.get("max_data"), monitor=rec)
+    r.frames = rec
     try:
         return r
     finally:
@@ -349,6 +352,18 @@ def run(chk):
                        law="the execution history (every event: type, name, input / output / error, ids 1..n), the status "
                            "notifications and the number of task requests are those the reference semantics predicts",
                        classify=classify)
+            continue
+        # --- the broker frames of every handler step against the steps the reference semantics predicts
+        import framecmp
+        fmode, fp, nst = framecmp.compare(m, r.frames.steps, r.frames.start, framecmp.fan_entered(c["machine"], m))
+        chk.dist("frames.%s" % fmode)
+        chk.dist("frames.%s.steps" % fmode, nst)
+        if fp:
+            chk.report("impl-differs-from-spec", case, impl={"frames": fp, "mode": fmode},
+                       model={"fanFail": m.get("fanFail"), "tieJoin": m.get("tieJoin"), "late": m.get("late")},
+                       law="C03.frames_match_reference: the broker frames of every handler step (deliveries, publications, "
+                           "acknowledgements, with the messages they concern, at their instants) are those the reference "
+                           "semantics predicts", classify=classify)
             continue
         if m["failState"] and (r.cause != m["cause"]):
             chk.report("impl-differs-from-spec", case, impl={"cause": r.cause}, model={"cause": m["cause"]},
